@@ -25,6 +25,7 @@ use exec::{Scenario, Stats, Violation};
 
 pub const DEFAULT_SEED: u64 = 20260928;
 const STACK: usize = 256 << 20;
+const ISOLATED_STACK: usize = 16 << 20;
 
 fn verif_dir() -> std::path::PathBuf {
     std::env::var("VERIF_DIR")
@@ -74,11 +75,31 @@ fn run_batch(
     let next = AtomicU64::new(from);
     let results: Mutex<Vec<RunResult>> = Mutex::new(vec![]);
     let stats: Mutex<Stats> = Mutex::new(Stats::default());
+    let nworkers = workers.max(1);
+    let slots: Vec<Mutex<Option<(u64, Instant)>>> = (0..nworkers).map(|_| Mutex::new(None)).collect();
+    let live = AtomicU64::new(nworkers as u64);
     std::thread::scope(|s| {
-        for _ in 0..workers.max(1) {
+        // watchdog: a scenario that does not return is a violation of "terminates"
+        s.spawn(|| loop {
+            std::thread::sleep(std::time::Duration::from_millis(200));
+            if live.load(Ordering::Relaxed) == 0 {
+                break;
+            }
+            for slot in &slots {
+                let cur = *slot.lock().unwrap();
+                if let Some((run, t)) = cur {
+                    if t.elapsed().as_secs() >= HANG_LIMIT_S {
+                        report_hang(prop, kind, seed, run, thorough);
+                    }
+                }
+            }
+        });
+        for w in 0..nworkers {
+            let slot = &slots[w];
+            let (next, results, stats, live) = (&next, &results, &stats, &live);
             std::thread::Builder::new()
                 .stack_size(STACK)
-                .spawn_scoped(s, || {
+                .spawn_scoped(s, move || {
                     let mut local = Stats::default();
                     let mut out = vec![];
                     loop {
@@ -86,8 +107,10 @@ fn run_batch(
                         if run >= to {
                             break;
                         }
+                        *slot.lock().unwrap() = Some((run, Instant::now()));
                         let mut sc = props::generate(prop, kind, seed, run, thorough);
-                        let o = props::execute(&sc);
+                        let o = execute_isolated(&sc);
+                        *slot.lock().unwrap() = None;
                         local.inc("scenarios");
                         local.merge(o.stats);
                         if let Some(t) = o.trace {
@@ -103,6 +126,7 @@ fn run_batch(
                     }
                     stats.lock().unwrap().merge(local);
                     results.lock().unwrap().extend(out);
+                    live.fetch_sub(1, Ordering::Relaxed);
                 })
                 .expect("spawn worker");
         }
@@ -110,6 +134,55 @@ fn run_batch(
     let mut r = results.into_inner().unwrap();
     r.sort_by_key(|x| x.run);
     (r, stats.into_inner().unwrap())
+}
+
+/// Executes the scenario on a brand-new OS thread (except for the pure loader configurations of
+/// C04): thread-local state of the engine and its dependencies starts empty, so a run is a
+/// function of its scenario and not of what the worker executed before.
+fn execute_isolated(sc: &Scenario) -> exec::Outcome {
+    if sc.property == "C04" {
+        return props::execute(sc);
+    }
+    std::thread::scope(|s| {
+        std::thread::Builder::new()
+            .stack_size(ISOLATED_STACK)
+            .spawn_scoped(s, || props::execute(sc))
+            .expect("spawn")
+            .join()
+            .unwrap_or_else(|_| exec::Outcome::clean(&prng::Digest::new(), Stats::default()))
+    })
+}
+
+const HANG_LIMIT_S: u64 = 30;
+const HANG_KEY: &str = "hang|no return within 30 s";
+
+/// A scenario did not return: re-run it alone from its replay file in a fresh process before it is
+/// believed, then report it (the stuck worker cannot be joined, so the process exits here).
+fn report_hang(prop: &str, kind: &str, seed: u64, run: u64, thorough: bool) -> ! {
+    let sc = props::generate(prop, kind, seed, run, thorough);
+    let v = Violation::new(
+        "hang",
+        "no return within 30 s".into(),
+        format!("scenario {} {} run {} did not return within {} s", prop, kind, run, HANG_LIMIT_S),
+    );
+    let path = write_replay(prop, &sc, &v, serde_json::json!({"note": "hangs are not minimised"}));
+    let st = std::process::Command::new(std::env::current_exe().unwrap())
+        .args(["replay", path.to_str().unwrap(), "--expect", HANG_KEY])
+        .stdout(std::process::Stdio::null())
+        .status()
+        .map(|s| s.code())
+        .unwrap_or(None);
+    if st == Some(1) {
+        println!("VIOLATION property={} replay={}", prop, path.display());
+        println!("  {}\n  {}", v.key(), v.detail);
+        props::c04::cleanup_scratch();
+        std::process::exit(1);
+    }
+    println!(
+        "HARNESS-ERROR: scenario {} {} run {} exceeded {} s in the batch but returned when re-run alone ({})",
+        prop, kind, run, HANG_LIMIT_S, path.display()
+    );
+    std::process::exit(2);
 }
 
 fn write_replay(prop: &str, sc: &Scenario, v: &Violation, extra: serde_json::Value) -> std::path::PathBuf {
@@ -158,12 +231,21 @@ fn cmd_replay(a: &Args) -> i32 {
         }
     };
     let sc2 = sc.clone();
-    let o = std::thread::Builder::new()
+    let (tx, rx) = std::sync::mpsc::channel();
+    std::thread::Builder::new()
         .stack_size(STACK)
-        .spawn(move || props::execute(&sc2))
-        .unwrap()
-        .join()
+        .spawn(move || {
+            let _ = tx.send(props::execute(&sc2));
+        })
         .unwrap();
+    let o = match rx.recv_timeout(std::time::Duration::from_secs(HANG_LIMIT_S)) {
+        Ok(o) => o,
+        Err(_) => {
+            println!("replay: property={} kind={} did not return within {} s", sc.property, sc.kind, HANG_LIMIT_S);
+            println!("VIOLATION property={} replay={}", sc.property, path);
+            std::process::exit(1);
+        }
+    };
     println!("replay: property={} kind={} digest={:016x}", sc.property, sc.kind, o.digest);
     for v in &o.violations {
         println!("  violation {}\n    {}", v.key(), v.detail.replace('\n', "\n    "));
@@ -376,6 +458,7 @@ fn cmd_check(a: &Args) -> i32 {
     let known = load_known(&prop);
     let mut exit = 0;
     let mut new_violations = 0;
+    let mut unconfirmed = 0;
     let mut reported = vec![];
     for (status, key, what) in &known {
         if status == "known" {
@@ -391,7 +474,7 @@ fn cmd_check(a: &Args) -> i32 {
         // minimise, then confirm from the replay file in a fresh process
         let size0 = sc.size();
         let key2 = key.clone();
-        let still = move |c: &Scenario| props::execute(c).has(&key2);
+        let still = move |c: &Scenario| execute_isolated(c).has(&key2);
         let sc2 = sc.clone();
         let (small, spent) = std::thread::Builder::new()
             .stack_size(STACK)
@@ -446,9 +529,11 @@ fn cmd_check(a: &Args) -> i32 {
                 key,
                 path.display()
             );
-            exit = 2;
-            break;
+            unconfirmed += 1;
         }
+    }
+    if exit == 0 && unconfirmed > 0 {
+        exit = 2;
     }
     props::c04::cleanup_scratch();
     let wall = t0.elapsed().as_secs_f64();
